@@ -20,12 +20,13 @@ class Unreadable(ValueError):
     pass
 
 
-def unit_ref(u, allow=('g', 'L', 'mol', 'U')):
-    """'mL' -> (Fraction(1,1000), 'L')"""
+def unit_ref(u, allow=('g', 'L', 'mol', 'U'), prefixed_U=False):
+    """'mL' -> (Fraction(1,1000), 'L');  prefixed_U: read 'mU' as 1e-3 U (the lenient reading; the documented forms
+    give activity units no prefix, and parse_quantity refuses one)"""
     for fam in ('mol', 'L', 'g', 'U'):
         if fam in allow and u.endswith(fam):
             p = u[:-len(fam)]
-            if fam == 'U' and p != '':
+            if fam == 'U' and p != '' and not prefixed_U:
                 raise Unreadable(f"activity units take no prefix: {u}")
             if p in PREFIXES:
                 return PREFIXES[p], fam
